@@ -116,7 +116,7 @@ class _Recorder:
     from a control backend keeps the oracle independent of the repository and of that upstream behaviour.
     """
 
-    def __init__(self, shape, dtype):
+    def __init__(self, shape, dtype, level="BASIC"):
         import xarray as xr
         from xarray.backends import BackendArray
         from xarray.core import indexing
@@ -124,6 +124,8 @@ class _Recorder:
         rec = self
         self.keys = []
         base = np.zeros(shape, dtype)
+        support = getattr(indexing.IndexingSupport, level)
+        wrap = {"OUTER": indexing.OuterIndexer, "OUTER_1VECTOR": indexing.OuterIndexer, "VECTORIZED": indexing.VectorizedIndexer}.get(level)
 
         class NP(BackendArray):
             def __init__(self):
@@ -133,9 +135,11 @@ class _Recorder:
             def __getitem__(self, key):
                 def raw(k):
                     rec.keys.append(k)
-                    return base[k]
+                    if wrap is None or all(isinstance(x, (int, np.integer, slice)) for x in k):
+                        return base[k]
+                    return indexing.NumpyIndexingAdapter(base)[wrap(k)]
 
-                return indexing.explicit_indexing_adapter(key, self.shape, indexing.IndexingSupport.BASIC, raw)
+                return indexing.explicit_indexing_adapter(key, self.shape, support, raw)
 
         self.da = xr.DataArray(xr.Variable(("rows", "columns"), indexing.LazilyIndexedArray(NP())))
 
@@ -212,10 +216,15 @@ def run_case(i, tier, seed):
                                "reads": [e[2:] for e in open_log if e[0] == "read" and e[1] == path][:12]}})
         lazy = tree["imagery/HH/data"]
         recorder = _Recorder((lines, pixels), np.uint16)
+        # what xarray would ask of a backend that declares more than BASIC support (the package may do so one day): used only
+        # when a load does not fit the BASIC request, so that the oracle does not depend on the declared support level
+        others = [_Recorder((lines, pixels), np.uint16, lv) for lv in ("OUTER", "VECTORIZED")]
         for sel in sels:
             want = recorder.lines_for(sel, lazy)
+            alternatives = None
             if want is None:
-                # xarray rejects the selection before any backend is consulted: no read may happen at all
+                # xarray rejects the selection before any BASIC backend is consulted: no read may happen at all
+                # (unless a backend with wider support would legitimately have been asked for lines)
                 obs["loads_rejected_above_backend"] += 1
                 want = []
             tracefs.reset_log()
@@ -226,6 +235,15 @@ def run_case(i, tier, seed):
                 pass
             log = list(tracefs.LOG)
             errs, ngroups = check_load_log(log, path, im, rpc, size, want)
+            if errs:
+                for rec2 in others:
+                    w2 = rec2.lines_for(sel, lazy)
+                    if w2 is not None:
+                        e2, g2 = check_load_log(log, path, im, rpc, size, w2)
+                        if not e2:
+                            errs, ngroups = e2, g2
+                            obs["judged_by_wider_support_request"] = obs.get("judged_by_wider_support_request", 0) + 1
+                            break
             obs["loads_checked"] += 1
             nread = len([e for e in log if e[0] == "read"])
             obs["read_events"] += nread
